@@ -19,6 +19,7 @@ def main(tier: str, seed: int) -> int:
     shards += E.matrix_shards(PROP, run, JUDGES, sample=run.pick(1500, 0), cap=run.pick(150, 400), extra={"positions": True})
     hostile = {"push_empty": True, "trivia_refs": True, "trivia_explicit": True, "zero_counts": True, "zero_width_stack_reps": True}
     shards += E.random_shards(PROP, run, JUDGES, profile="full", count=run.pick(25, 300), cap=run.pick(120, 300), maxlen=4, extra={**extra, "profile_overrides": hostile})
+    shards += E.scale_shards(PROP, run, JUDGES, extra={"positions": True})
     E.execute(run, shards)
     from pv.checks import bundled
 
